@@ -374,6 +374,8 @@ impl TypeScript {
     ) -> io::Result<()> {
         // Only attempt to write a comment if there are some, otherwise we're Ok()
         if !comments.is_empty() {
+            // `*/` inside the text would end the comment early
+            let comments: Vec<String> = comments.iter().map(|c| c.replace("*/", "*\\/")).collect();
             let comment: String = {
                 let tab_indent = "\t".repeat(indent);
                 // If there's only one comment then keep it on the same line, otherwise we'll make a nice multi-line comment
